@@ -87,6 +87,23 @@ pub fn c10(o: &Opts) -> i32 {
             }
         }
     }
+    // every pool size 1..=16 at a moderate depth (the result must not depend on how rayon splits the root moves)
+    for (ti, (p, maxd, _t)) in targets.iter().enumerate() {
+        if o.replay.is_none() && ti % (if q { 5 } else { 2 }) != 0 { continue; }
+        if ctx.budget_used() > 0.9 { break; }
+        let d = (*maxd).min(if p.piece_count() > 12 { 1 } else { 2 });
+        let want = p.cum_perft(d);
+        for pool in 1..=16usize {
+            let got = engine_count(&mut MoveGenerator::new(), p, d, pool);
+            evaluations += 1; ctx.count("pool_sweep_counts", 1);
+            ctx.distinct(p.key_hash() ^ (d as u64) << 60 ^ (pool as u64) << 50 ^ 7);
+            match got {
+                Ok(n) if n == want => {}
+                Ok(n) => ctx.violation("c10:count-depends-on-pool-size", &format!("count_positions({}) on {} = {} on a pool of {} threads; the true number is {}", d, p.to_fen(), n, pool, want), json!({"fen": p.to_fen(), "depth": d, "pool": pool, "engine": n, "rules": want})),
+                Err(e) => ctx.violation(&format!("c10:panic:{}", par::last_panic_location()), &format!("count_positions({}) on {} failed: {}", d, p.to_fen(), e), json!({"fen": p.to_fen(), "depth": d, "pool": pool})),
+            }
+        }
+    }
     // thorough: the tractable limit from the initial position, in a child process (an allocation failure aborts)
     if !q && o.replay.is_none() {
         let p = Pos::start();
